@@ -1,6 +1,13 @@
 """Single table of claimed checks; bin/mkmanifest renders MANIFEST.json from it."""
 
 CHECKS = {
+    "C16": dict(
+        level="exploration",
+        technique="TLA+ spec MSGrammar supplies the input space: a derivation machine over a transcription of grammar.pest (leftmost expansion, depth budget) and a token-edit machine (delete / duplicate / swap / replace / insert, up to 3 edits) over the tokenised example corpus, explored by TLC BFS (all single structural edits) and seeded -simulate; the oracle is the post-condition of the real `compile`: ends within 10 s with exit 0 or 1",
+        text="Exploration of grammar-derived and corpus-mutated inputs (9k quick, >100k thorough); any panic, abort, signal or hang is a verdict keyed by panic site.",
+        note="The specification contributes the input space, not a behavioural oracle. Random parts depend on VERIF_SEED: an unseen panic site of the pinned tree can surface under another seed (nine sites were found and repaired so far).",
+        design="5/C16",
+    ),
     "C19": dict(
         level="exploration",
         technique="TLA+ spec MSFfi (the call convention as a stack machine: Push / CallLib / PrintAll / Void; MSFfiMachine explores it step by step with invariants ArgumentsUnchanged, NoInstructionAfterFailure, MatchesExpected); TLA+ generator GenFfi enumerates argument vectors x call kinds x an optional second call; each case is hand-assembled text bytecode -> transpile -> execute against the probe cdylib that reports the slice it received; TLC judge CheckFfi",
